@@ -592,9 +592,15 @@ class Schema(ResolverMap):
             },
         )
 
-        cloned.merge_resolvers(self)
-        # Schema-wide and per-type default resolvers are not part of
-        # ``merge_resolvers``.
+        # The copied members already carry their resolvers. The maps are copied
+        # as they are rather than replayed through ``merge_resolvers``, which
+        # refuses entries naming a type or a field that a transform has since
+        # hidden or renamed: the result of such a transform could not be
+        # cloned, nor transformed again.
+        cloned.resolvers = {t: dict(r) for t, r in self.resolvers.items()}
+        cloned.subscriptions = {
+            t: dict(r) for t, r in self.subscriptions.items()
+        }
         cloned.default_resolver = self.default_resolver
         cloned.default_resolvers.update(self.default_resolvers)
 
